@@ -234,3 +234,157 @@ theorem walkA_noOverlap (l : List Schema) (path : String) (i : Nat) (h : noOverl
 end
 
 end VM.Sw
+
+namespace VM.Sw
+open VM
+
+/-! ### from the schema walker to the whole stage (repaired configuration) -/
+
+/-- the walker's result for a schema at a path, as a value (it always exists for the repaired configuration) -/
+def walked (J : Judges) (O : Oracles) (w : Which) (inn : String) (s : Schema) (path : String) (vis : List String) : Res :=
+  ((walk DCfg.repaired J w O inn s path vis).1).getD {}
+
+theorem walked_spec (J : Judges) (O : Oracles) (w : Which) (inn : String) (s : Schema) (path : String) (vis : List String) :
+    (walk DCfg.repaired J w O inn s path vis).1 = some (walked J O w inn s path vis)
+      ∧ ∀ m, (m ∈ reportedOf w (walked J O w inn s path vis) ↔ Exp J O w inn s path m) := by
+  obtain ⟨r, hr, hm⟩ := walk_mem J O w inn s path vis
+  simp only [walked, hr, Option.getD_some]
+  exact ⟨trivial, hm⟩
+
+/-- **Definitions**: every definition is walked under `definitions.<name>`; the stage reports exactly what
+    the specification asks for some definition (plus what was there before) -/
+theorem defsStage_mem (J : Judges) (O : Oracles) (w : Which) (defs : List (String × Schema)) (res : Res) (vis : List String) (m : Msg) :
+    m ∈ reportedOf w (defsStage DCfg.repaired J w O defs res vis)
+      ↔ m ∈ reportedOf w res ∨ ∃ d ∈ defs, Exp J O w "body" d.2 ("definitions." ++ d.1) m := by
+  induction defs generalizing res vis with
+  | nil => simp [defsStage]
+  | cons d rest ih =>
+    obtain ⟨nm, s⟩ := d
+    simp only [defsStage]
+    rw [ih]
+    obtain ⟨hr, hm⟩ := walked_spec J O w "body" s ("definitions." ++ nm) vis
+    simp only [hr, mergeOpt, mem_reportedOf_mergeOne, hm, List.mem_cons, exists_eq_or_imp, or_assoc]
+
+/-- what `report` adds for a judged sub-result: the wrapper message, and the sub-result's findings -/
+theorem mem_reportedOf_report (w : Which) (res red : Res) (tag : Msg) (m : Msg) :
+    m ∈ reportedOf w (report w res tag red false) ↔ m ∈ reportedOf w res ∨ m = tag ∨ m ∈ reportedOf w red := by
+  cases w
+  · simp [report, reportedOf, Res.mergeOne, Res.addErrors, mem_addMsgs, or_assoc]
+  · simp [report, reportedOf, Res.mergeOne, Res.addWarnings, mem_addMsgs, or_assoc]
+
+/-- **Body parameters**: the schema of a body parameter is walked under the parameter's name; when the
+    walk finds anything, the wrapper message and the findings are reported, otherwise nothing is -/
+theorem paramSchema_mem (J : Judges) (O : Oracles) (w : Which) (res : Res) (p : Param) (s : Schema) (hs : p.schema = some s) (m : Msg) :
+    m ∈ reportedOf w (paramSchema DCfg.repaired J w O res p)
+      ↔ m ∈ reportedOf w res
+        ∨ (hasErrorsOrWarnings (some (walked J O w p.loc s p.name [])) = true
+            ∧ (m = mkMsg (kindName w "Param") [p.name, p.loc] ∨ Exp J O w p.loc s p.name m)) := by
+  obtain ⟨hr, hm⟩ := walked_spec J O w p.loc s p.name []
+  simp only [paramSchema, hs, hr, reportIf]
+  split
+  · rename_i hew
+    rw [mem_reportedOf_report, hm]
+    simp [hew]
+  · rename_i hew
+    simp [hew]
+
+/-- **Response schemas**: walked under the status code (or `default`) -/
+theorem respSchema_mem (J : Judges) (O : Oracles) (w : Which) (o : Op) (r : Response) (res : Res) (s : Schema)
+    (hs : r.schema = some s) (m : Msg) :
+    m ∈ reportedOf w (respSchema DCfg.repaired J w O o r res)
+      ↔ m ∈ reportedOf w res
+        ∨ (hasErrorsOrWarnings (some (walked J O w "response" s r.code [])) = true
+            ∧ (m = mkMsg (kindName w "Response") [o.id, responseName r] ∨ Exp J O w "response" s r.code m)) := by
+  obtain ⟨hr, hm⟩ := walked_spec J O w "response" s r.code []
+  simp only [respSchema, hs, hr, reportIf]
+  split
+  · rename_i hew
+    rw [mem_reportedOf_report, hm]
+    simp [hew]
+  · rename_i hew
+    simp [hew]
+
+end VM.Sw
+
+namespace VM.Sw
+open VM
+
+/-! ### simple parameters, headers and their items (no visited set involved) -/
+
+theorem mem_reportedOf_report_true (w : Which) (res red : Res) (tag : Msg) (m : Msg) :
+    m ∈ reportedOf w (report w res tag red true) ↔ m ∈ reportedOf w res ∨ m = tag ∨ m ∈ judgedOf w red := by
+  cases w
+  · simp [report, reportedOf, judgedOf, Res.mergeOne, Res.addErrors, mem_addMsgs, or_assoc]
+  · simp [report, reportedOf, judgedOf, Res.mergeAsWarningsOne, Res.addWarnings, mem_addMsgs, or_assoc]
+
+/-- what must be reported for an items chain: the judgement of each level's own value under
+    `name`, `name[0].default`, … and (defaults only) each level's pattern that does not compile -/
+def ExpItems (J : Judges) (O : Oracles) (w : Which) (inn rootFmt : String) : List ItemLevel → String → Msg → Prop
+  | [], _, _ => False
+  | l :: rest, path, m =>
+    (match itemValue w l with
+     | some v => m ∈ judgedOf w (J.items path inn rootFmt (l :: rest) v)
+     | none => False)
+    ∨ ExpItems J O w inn rootFmt rest (path ++ "[0]." ++ w.suffix) m
+    ∨ (w = .dflt ∧ patOK O l.base.pattern = false ∧ m = mkMsg "invalidPatternIn" [path, inn, l.base.pattern])
+
+theorem itemsHere_mem (J : Judges) (w : Which) (inn rootFmt : String) (l : ItemLevel) (rest : List ItemLevel) (path : String) (m : Msg) :
+    m ∈ reportedOf w (itemsHere J w inn rootFmt l rest path)
+      ↔ (match itemValue w l with
+          | some v => m ∈ judgedOf w (J.items path inn rootFmt (l :: rest) v)
+          | none => False) := by
+  unfold itemsHere
+  cases itemValue w l with
+  | none => simp [not_mem_reportedOf_empty]
+  | some v => simp [mem_reportedOf_mergeJ, not_mem_reportedOf_empty]
+
+theorem itemsPattern_mem (O : Oracles) (w : Which) (inn : String) (l : ItemLevel) (path : String) (res : Res) (m : Msg) :
+    m ∈ reportedOf w (itemsPattern O inn l path res)
+      ↔ m ∈ reportedOf w res ∨ (w = .dflt ∧ patOK O l.base.pattern = false ∧ m = mkMsg "invalidPatternIn" [path, inn, l.base.pattern]) := by
+  unfold itemsPattern
+  cases hp : patOK O l.base.pattern with
+  | true => simp
+  | false => simp [mem_reportedOf_addError]
+
+theorem walkItems_mem (J : Judges) (O : Oracles) (w : Which) (inn rootFmt : String) (chain : List ItemLevel) (path : String) (m : Msg) :
+    m ∈ reportedOf w (walkItems J w O inn rootFmt chain path) ↔ ExpItems J O w inn rootFmt chain path m := by
+  match chain with
+  | [] => simp [walkItems, ExpItems, not_mem_reportedOf_empty]
+  | [l] =>
+    simp only [walkItems, ExpItems, itemsPattern_mem, itemsHere_mem, false_or]
+  | l :: l' :: rest =>
+    rw [walkItems, itemsPattern_mem, mem_reportedOf_mergeOne, itemsHere_mem, walkItems_mem J O w inn rootFmt (l' :: rest)]
+    simp only [ExpItems, or_assoc]
+
+/-- **Simple parameters**: the value is judged by the parameter's own validator; the wrapper message and the
+    validator's findings are reported exactly when it finds something -/
+theorem paramSimple_mem (J : Judges) (w : Which) (res : Res) (p : Param) (v : JVal)
+    (hv : w.value p.base = some v) (hs : p.schema = none) (m : Msg) :
+    m ∈ reportedOf w (paramSimple J w res p)
+      ↔ m ∈ reportedOf w res
+        ∨ (hasErrorsOrWarnings (some (J.param p v)) = true
+            ∧ (m = mkMsg (kindName w "Param") [p.name, p.loc] ∨ m ∈ judgedOf w (J.param p v))) := by
+  simp only [paramSimple, hv, hs, reportIf]
+  split
+  · rename_i hew
+    rw [mem_reportedOf_report_true]
+    simp [hew]
+  · rename_i hew
+    simp [hew]
+
+/-- **Headers**: likewise, by the header's own validator -/
+theorem headerSimple_mem (J : Judges) (w : Which) (opId : String) (r : Response) (res : Res) (h : Header) (v : JVal)
+    (hv : w.value h.base = some v) (m : Msg) :
+    m ∈ reportedOf w (headerSimple J w opId r res h)
+      ↔ m ∈ reportedOf w res
+        ∨ (hasErrorsOrWarnings (some (J.header h v)) = true
+            ∧ (m = mkMsg (kindName w "Header") [opId, h.name, responseName r] ∨ m ∈ judgedOf w (J.header h v))) := by
+  simp only [headerSimple, hv, reportIf]
+  split
+  · rename_i hew
+    rw [mem_reportedOf_report_true]
+    simp [hew]
+  · rename_i hew
+    simp [hew]
+
+end VM.Sw
